@@ -365,6 +365,19 @@ Proof.
    rewrite slice_ok by lia; cbn [of_opt bind]; left; eauto).
 Qed.
 
+Lemma wf_store_spec pol s : wf_store pol s = true ->
+  (pol = 0 \/ pol = 255) /\ store_len s < 2 ^ 47 /\
+  forallb (wf_entry (zlen (a_table s))) (a_entries s) = true /\
+  table_ok (a_table s) /\ zlen (a_table s) <= 255 /\
+  discovered 0 (a_entries s) = zlen (a_table s) /\
+  first_next_ok pol (a_entries s) = true /\ 0 <= a_free s.
+Proof.
+  unfold wf_store. intros H. repeat (apply andb_true_iff in H as [H ?]).
+  repeat split; auto; try lia.
+  intros g Hg. rewrite forallb_forall in H4. specialize (H4 g Hg).
+  apply andb_true_iff in H4 as [_ L]. unfold nvar_guid_size in L. lia.
+Qed.
+
 Section WithCodec.
 Variables dec16 enc16 : bytes -> bytes.
 Hypothesis codec_rt : forall u, bmp_ok u = true -> enc16 (dec16 u ++ [0]) = u ++ [0; 0].
@@ -584,19 +597,6 @@ Proof.
     rewrite IH.
     destruct (interp_entries dec16 pol table r (zlen pre + ae_size e) (prev ++ [v]) (disc_step k e)) as [es k2].
     rewrite zlen_emit_entries_cons. do 2 f_equal. lia.
-Qed.
-
-Lemma wf_store_spec pol s : wf_store pol s = true ->
-  (pol = 0 \/ pol = 255) /\ store_len s < 2 ^ 47 /\
-  forallb (wf_entry (zlen (a_table s))) (a_entries s) = true /\
-  table_ok (a_table s) /\ zlen (a_table s) <= 255 /\
-  discovered 0 (a_entries s) = zlen (a_table s) /\
-  first_next_ok pol (a_entries s) = true /\ 0 <= a_free s.
-Proof.
-  unfold wf_store. intros H. repeat (apply andb_true_iff in H as [H ?]).
-  repeat split; auto; try lia.
-  intros g Hg. rewrite forallb_forall in H4. specialize (H4 g Hg).
-  apply andb_true_iff in H4 as [_ L]. unfold nvar_guid_size in L. lia.
 Qed.
 
 Lemma length_emit_entries l : (length l <= length (emit_entries l))%nat.
